@@ -142,6 +142,7 @@ type unitSink struct {
 	outcomes          map[string]bool
 	viol              func(key string, art unitCase)
 	samples           []any
+	notExh            []string
 }
 
 func (u *unitSink) outcome(s string) { u.outcomes[s] = true }
